@@ -5,10 +5,8 @@ package cachettl
 
 import (
 	"context"
-	"encoding/json"
 	"fmt"
-	"sort"
-	"strconv"
+	"os"
 	"strings"
 	"time"
 
@@ -19,7 +17,10 @@ import (
 )
 
 var (
-	namespaces = []string{cache.HINT_SUMMARY, cache.MAN_SUMMARY}
+	// two private namespaces; they come into being the way murex creates unknown namespaces: by the
+	// first cache.Read on them (InitCache's eight standard namespaces would make every Clear/Trim
+	// open eight sqlite connections)
+	namespaces = []string{"verif_n1", "verif_n2"}
 	nsTok      = []string{"n1", "n2"}
 	keys       = []string{"k1", "k2"}
 	vals       = []string{"v1", "v2"}
@@ -49,7 +50,13 @@ func ops() []string {
 	}
 	for ns := range namespaces {
 		for k := range keys {
-			for _, v := range vals {
+			if ns == 1 && k == 1 {
+				continue // n2/k2 is never written: it must always read as empty
+			}
+			for vi, v := range vals {
+				if ns == 1 && vi > 0 {
+					continue // the other namespace is written with v1 only (keeps the state set at 7*7*4)
+				}
 				for _, t := range ttlTok {
 					out = append(out, fmt.Sprintf("write:%s:%s:%s:%s", nsTok[ns], keys[k], v, t))
 				}
@@ -156,6 +163,11 @@ func (in *inst) step(op string, v viol) (mutating bool, label string, ok bool) {
 		if _, err := cache.Trim(ctx); err != nil {
 			v("trim-error", err.Error())
 		}
+		for k, c := range in.cells {
+			if c.ttl == 0 {
+				delete(in.cells, k) // removing an expired entry changes nothing observable
+			}
+		}
 		in.checkAll(v)
 		return true, "trim", true
 	case op == "clear":
@@ -169,66 +181,12 @@ func (in *inst) step(op string, v viol) (mutating bool, label string, ok bool) {
 	return false, "", false
 }
 
-// canon: what the real cache exposes: the four reads plus Dump() of both layers with TTLs
-// reduced to their class.
-func canon(c *vlib.Ctx) string {
-	var b strings.Builder
-	for ns := range namespaces {
-		for k := range keys {
-			var got string
-			if cache.Read(namespaces[ns], keys[k], &got) {
-				b.WriteString(got + " ")
-			} else {
-				b.WriteString("- ")
-			}
-		}
-	}
-	d, err := cache.Dump(context.Background())
-	if err != nil {
-		c.HarnessError("cache.Dump: %v", err)
-	}
-	raw, _ := json.Marshal(d)
-	var dump map[string]struct {
-		Internal []struct{ Key, Value, TTL string }
-		CacheDb  []struct{ Key, Value, TTL string }
-	}
-	if err := json.Unmarshal(raw, &dump); err != nil {
-		c.HarnessError("cache.Dump format: %v %s", err, raw)
-	}
-	class := func(s string) string {
-		t, err := time.ParseInLocation(time.UnixDate, s, time.Local)
-		if err != nil {
-			return "?" + s
-		}
-		switch d := time.Until(t); {
-		case d < 0:
-			return "past"
-		case d < 75*time.Minute:
-			return "near"
-		default:
-			return "far"
-		}
-	}
-	for i, ns := range namespaces {
-		var items []string
-		for _, it := range dump[ns].Internal {
-			items = append(items, "mem:"+it.Key+"="+it.Value+"@"+class(it.TTL))
-		}
-		for _, it := range dump[ns].CacheDb {
-			items = append(items, "db:"+it.Key+"="+it.Value+"@"+class(it.TTL))
-		}
-		sort.Strings(items)
-		b.WriteString("|" + nsTok[i] + " " + strings.Join(items, ","))
-	}
-	return b.String()
-}
-
 func reset(c *vlib.Ctx) *inst {
 	if _, err := cache.Clear(context.Background()); err != nil {
-		c.HarnessError("cache.Clear: %v", err)
+		fail(c, "cache.Clear: %v", err)
 	}
 	if !cache.DbEnabled() {
-		c.HarnessError("the persistent cache got disabled (sqlite error in %s)", cache.DbPath())
+		fail(c, "the persistent cache got disabled (sqlite error in %s)", cache.DbPath())
 	}
 	return &inst{cells: map[string]*cell{}}
 }
@@ -241,73 +199,188 @@ func replayHist(c *vlib.Ctx, hist []string) *inst {
 	return in
 }
 
-func setup(c *vlib.Ctx) {
-	mx.Init(c.WorkDir) // points the cache db at the worker's scratch directory
-	cache.InitCache()
-	if !cache.DbEnabled() || !strings.HasPrefix(cache.DbPath(), c.WorkDir) {
-		c.HarnessError("cache db not usable / not private: enabled=%v path=%s", cache.DbEnabled(), cache.DbPath())
+// setup returns a cleanup function. mx.Init points the cache db at the worker's scratch directory;
+// sqlite syncs every commit, which costs ~10 ms per operation on the disk, so the private db is
+// moved to a private tmpfs directory when /dev/shm exists.
+func setup(c *vlib.Ctx) func() {
+	mx.Init(c.WorkDir)
+	cleanup := func() {}
+	dir := c.WorkDir
+	if st, err := os.Stat("/dev/shm"); err == nil && st.IsDir() {
+		if d, err := os.MkdirTemp("/dev/shm", "verif-C30-"); err == nil {
+			dir = d
+			cleanup = func() { os.RemoveAll(d) }
+			cache.SetPath(d + "/cache.db")
+		}
+	}
+	scratch = cleanup
+	for _, ns := range namespaces {
+		var s string
+		cache.Read(ns, "init", &s) // creates the namespace (in-memory map + table)
+	}
+	if !cache.DbEnabled() || !strings.HasPrefix(cache.DbPath(), dir) {
+		fail(c, "cache db not usable / not private: enabled=%v path=%s", cache.DbEnabled(), cache.DbPath())
 	}
 	in := reset(c)
 	in.step("write:n1:k1:v1:far", nil)
 	var s string
 	if !cache.Read(namespaces[0], keys[0], &s) || s != "v1" {
-		c.HarnessError("cache does not store anything (read back %q)", s)
+		fail(c, "cache does not store anything (read back %q)", s)
 	}
+	return cleanup
+}
+
+var scratch = func() {}
+
+// fail: harness error, after removing the tmpfs scratch directory.
+func fail(c *vlib.Ctx, f string, a ...any) {
+	scratch()
+	c.HarnessError(f, a...)
+}
+
+// ---- the frontier is computed on the reference model ---------------------------------------------
+
+type mstate struct {
+	hist []string
+	key  string
+}
+
+// modelKey: per cell the latest value and its TTL class (expired entries included).
+func modelKey(in *inst) string {
+	var b strings.Builder
+	for ns := range namespaces {
+		for k := range keys {
+			c := in.cells[cellKey(ns, k)]
+			if c == nil {
+				b.WriteString("- ")
+			} else {
+				b.WriteString(c.val + "@" + ttlTok[c.ttl] + " ")
+			}
+		}
+	}
+	return b.String()
+}
+
+func modelApply(hist []string) *inst {
+	in := &inst{cells: map[string]*cell{}}
+	for _, op := range hist {
+		f := strings.Split(op, ":")
+		switch f[0] {
+		case "write":
+			ck := f[1] + "/" + f[2]
+			c := in.cells[ck]
+			if c == nil {
+				c = &cell{}
+				in.cells[ck] = c
+			}
+			c.val, c.ttl = f[3], idx(ttlTok, f[4])
+			c.writes++
+		case "trim":
+			for k, c := range in.cells {
+				if c.ttl == 0 {
+					delete(in.cells, k)
+				}
+			}
+		case "clear":
+			in.cells = map[string]*cell{}
+		}
+	}
+	return in
+}
+
+// frontier: breadth-first over the model, every mutating op from every state; states are expanded
+// while their shortest history is shorter than maxLen.
+func frontier(muts []string, maxLen int) []mstate {
+	start := mstate{nil, modelKey(modelApply(nil))}
+	seen := map[string]bool{start.key: true}
+	out := []mstate{start}
+	for i := 0; i < len(out); i++ {
+		if len(out[i].hist) >= maxLen {
+			continue
+		}
+		for _, op := range muts {
+			h := append(append([]string{}, out[i].hist...), op)
+			k := modelKey(modelApply(h))
+			if !seen[k] {
+				seen[k] = true
+				out = append(out, mstate{h, k})
+			}
+		}
+	}
+	return out
 }
 
 func run(c *vlib.Ctx) {
-	setup(c)
-	maxDepth := 1 << 30
+	defer setup(c)()
+	maxLen := 1 << 30
 	if c.Quick() {
-		maxDepth = 3
+		maxLen = 1
 	}
-	all := ops()
-	reset(c)
-	seen := map[string]bool{canon(c): true}
-	queue := [][]string{{}}
-	c.P.States = 1
+	var reads, muts []string
+	for _, op := range ops() {
+		if strings.HasPrefix(op, "read:") {
+			reads = append(reads, op)
+		} else {
+			muts = append(muts, op)
+		}
+	}
+	states := frontier(muts, maxLen)
+	var n uint64
 	deepest := 0
-	for qi := 0; qi < len(queue); qi++ {
-		hist := queue[qi]
+	for si, st := range states {
+		deepest = max(deepest, len(st.hist))
+		if c.Mine(uint64(si)) {
+			c.P.States++ // every state is counted by exactly one worker
+		}
 		if c.Expired() {
 			return
 		}
-		for _, op := range all {
-			in := replayHist(c, hist)
-			before := canon(c)
+		// the four reads, one after the other on the same instance
+		mine := c.Mine(n)
+		n++
+		if mine {
+			in := replayHist(c, st.hist)
 			nt := in.stale()
-			w := strings.TrimSpace(strings.Join(hist, " ") + " " + op)
-			mut, label, _ := in.step(op, func(clause, detail string) { c.Violation(clause, w, detail) })
-			c.P.Transitions++
-			after := canon(c)
-			if !mut && after != before {
-				c.Violation("read-is-pure", w, fmt.Sprintf("observable state changed from %s to %s", before, after))
+			for _, op := range reads {
+				w := strings.TrimSpace(strings.Join(st.hist, " ") + " " + op)
+				_, label, _ := in.step(op, func(clause, detail string) { c.Violation(clause, w, detail) })
+				c.P.Transitions++
+				c.Eval(nt, label)
 			}
-			c.Eval(nt, label)
-			if mut && !seen[after] {
-				seen[after] = true
-				c.P.States++
-				if len(hist)+1 < maxDepth || !c.Quick() {
-					queue = append(queue, append(append([]string{}, hist...), op))
-					deepest = max(deepest, len(hist)+1)
-				}
-				if c.P.States%37 == 2 {
-					c.Sample(map[string]any{"history": w, "state (reads | dump)": after})
-				}
+			// and once more: a read must not change what the next read returns
+			w := strings.TrimSpace(strings.Join(st.hist, " ") + " " + strings.Join(reads, " ") + " " + strings.Join(reads, " "))
+			in.checkAll(func(clause, detail string) { c.Violation(clause, w, detail) })
+		}
+		if len(st.hist) > maxLen {
+			continue
+		}
+		for _, op := range muts {
+			mine := c.Mine(n)
+			n++
+			if !mine {
+				continue
+			}
+			in := replayHist(c, st.hist)
+			w := strings.TrimSpace(strings.Join(st.hist, " ") + " " + op)
+			_, label, _ := in.step(op, func(clause, detail string) { c.Violation(clause, w, detail) })
+			c.P.Transitions++
+			c.Eval(in.stale(), label)
+			if c.P.Transitions%97 == 0 {
+				c.Sample(map[string]any{"history": w, "model state after": modelKey(in)})
 			}
 		}
 	}
 	if !cache.DbEnabled() {
-		c.HarnessError("the persistent cache got disabled during the run")
+		fail(c, "the persistent cache got disabled during the run")
 	}
-	c.Extra("bfs depth (longest history expanded +1)", int64(deepest))
-	if c.Quick() {
-		c.Note("quick tier: histories of at most " + strconv.Itoa(maxDepth) + " mutating operations (states found at that depth are checked but not expanded)")
+	if c.Shard == 0 {
+		c.Extra("bfs depth (longest shortest history)", int64(deepest))
+		c.Extra("model states (frontier)", int64(len(states)))
 	}
 }
 
 func replay(c *vlib.Ctx, w string) {
-	setup(c)
+	defer setup(c)()
 	hist := strings.Fields(w)
 	in := reset(c)
 	for i, op := range hist {
@@ -322,13 +395,12 @@ func replay(c *vlib.Ctx, w string) {
 func init() {
 	vlib.Register(&vlib.Check{
 		ID: "C30", Engine: "E3",
-		Rule: "breadth-first search over histories of {Write(ns,key,value,ttl), Read(ns,key), Trim, Clear} on the real utils/cache package (in-memory layer + sqlite layer, private db per worker) with namespaces {hint_summary, man_summary}, keys {k1,k2}, values {v1,v2} and TTL classes {1 h ago, +30 min (sqlite layer only), +2 h (both layers)}; canonical state = the four Read results plus cache.Dump() of both layers with TTLs reduced to their class; every operation is executed in every reachable state by replaying the shortest history after cache.Clear, after each mutating operation all four cells are read and compared with the model (latest write under that key and namespace if its TTL is in the future, else nothing), successors with a new canonical state are enqueued (quick: histories <= 3 operations; thorough: to the fixpoint); non-trivial = transitions executed in a state where some cell was written more than once or holds an expired entry",
-		Shards: func(string) int { return 1 },
+		Rule:   "breadth-first search over histories of {Write(ns,key,value,ttl), Read(ns,key), Trim, Clear} on the real utils/cache package (in-memory layer + sqlite layer, private db per worker on tmpfs) with two namespaces created by their first Read, keys {k1,k2}, values {v1,v2} and TTL classes {1 h ago, +30 min (sqlite layer only), +2 h (both layers)}; writes go to the cells n1/k1, n1/k2, n2/k1 (same namespace other key, same key other namespace), n2/k1 only with v1, n2/k2 is only read; a state is, per cell, the latest value and TTL class (expired included); because murex opens a new sqlite connection for every call (~25 ms) the frontier (states and their shortest histories) is computed on the reference model and the transitions (every operation in every state) are dealt out to 16 workers, each of which replays the state's shortest history on the real cache after cache.Clear, executes the operation and then reads all four cells, comparing with the model (latest write under that key and namespace if its TTL is in the future, else nothing); quick: histories of <= 2 mutating operations, thorough: to the fixpoint of the state set (7*7*4 states); non-trivial = transitions after which some cell has been written more than once or holds an expired entry (a stale candidate exists when the cells are read back)",
 		Run:    run,
 		Replay: replay,
 		Assumptions: []string{
 			"the clock is real (time.Now, sqlite unixepoch()); all TTLs are at least 30 minutes away from now, expiry during a history is outside the bound",
-			"Dump() is used only to identify states, its content is not asserted; what Trim reports is not asserted",
+			"stale items of the in-memory layer (a +2 h value overwritten by a shorter TTL) are not part of the state identity: they are reached as targets of transitions and checked there, but operations from them are only explored through the shortest history of their state", "what Trim/Clear report and Dump() are not asserted",
 		},
 	})
 }
